@@ -23,11 +23,11 @@ import (
 type Mutant struct {
 	Property string
 	Name     string
-	File     string /* Repo-relative. */
-	Old, New string /* First occurrence of Old is replaced by New. */
+	File     string      /* Repo-relative. */
+	Old, New string      /* First occurrence of Old is replaced by New. */
 	Edits    [][3]string /* Additional (file, old, new). */
-	Expect   string /* Substring of the finding key that must be reported; "" = must stay silent (benign). */
-	Quick    bool   /* Also run in the quick tier. */
+	Expect   string      /* Substring of the finding key that must be reported; "" = must stay silent (benign). */
+	Quick    bool        /* Also run in the quick tier. */
 	Why      string
 }
 
@@ -75,11 +75,11 @@ func (m *Mutant) apply(repo string, overlay map[string][]byte) error {
 
 // mutantResult is the outcome of one self-test run.
 type mutantResult struct {
-	Name     string `json:"name"`
-	Expect   string `json:"expect"`
-	Outcome  string `json:"outcome"` /* detected, silent-as-expected, MISSED, FALSE-ALARM, skipped */
+	Name     string   `json:"name"`
+	Expect   string   `json:"expect"`
+	Outcome  string   `json:"outcome"` /* detected, silent-as-expected, MISSED, FALSE-ALARM, skipped */
 	Findings []string `json:"findings,omitempty"`
-	Why      string `json:"why,omitempty"`
+	Why      string   `json:"why,omitempty"`
 }
 
 // runMutants runs the given mutants in child processes (one mutant per
